@@ -71,10 +71,14 @@ func findPrivAnchors(w *World) *privAnchors {
 				}
 			}
 		})
-		if callsG && !callsR && !other {
+		// a wrapper grants (revokes) and does not do the opposite; what else it calls (logging, a no-op defer) does
+		// not matter.  A function that grants and forgets to revoke is thereby read as a wrapper too: its callers
+		// are then the ones that hold the privilege at their exits, and are reported.
+		_ = other
+		if callsG && !callsR && fn.Parent() == nil {
 			p.grant[fn] = true
 		}
-		if callsR && !callsG && !other {
+		if callsR && !callsG && fn.Parent() == nil {
 			p.revoke[fn] = true
 		}
 	}
